@@ -1316,6 +1316,13 @@ class TangentVector(PointPair):
         v2 = project_to_hyperboloid(self.point, other.normalized().vector)
 
         product = utils.apply_bilinear(v1, v2, self.minkowski)
+
+        # (x, v) and (-x, -v) are the same tangent vector: compare the
+        # two vectors over representatives of the basepoint lying on
+        # the same sheet of the hyperboloid
+        sheets = utils.apply_bilinear(self.point, other.point, self.minkowski)
+        product = np.where(sheets > 0, -product, product)
+
         return np.arccos(product)
 
     def point_along(self, distance):
